@@ -23,6 +23,15 @@ pub const SIM_ID: u64 = 1;
 const MAX_HANDLES: usize = 48;
 const STEP_TICK_BUDGET: u64 = 1 << 16;
 
+/// Tick budget of one raw step; a counting operator over a long list gets what the unchanged
+/// library's exponential recursion needs.
+fn step_budget(op: &Op) -> u64 {
+    match op {
+        Op::CountN(_, l, _) if l.len() > 12 => 1 << 30,
+        _ => STEP_TICK_BUDGET,
+    }
+}
+
 // ---------------------------------------------------------------------------------------------
 // Plan
 // ---------------------------------------------------------------------------------------------
@@ -137,6 +146,10 @@ pub enum Op {
     Redo(usize),
     /// `table-growth`: intern this many seeded functions (and drop them) so that the table grows by thousands of nodes
     Bulk(u64, u16),
+    /// `call-count`: this many consecutive cheap calls of one entry point on leaf operands
+    /// (kind 0 = exists_impl, 1 = all, 2 = not, 3 = and, 4 = or, 5 = var): nothing to compare, it
+    /// only makes the environment's call counters large (2^16 in any tier, 2^32 in the thorough one)
+    Spin(u8, u64),
     /// a blanked step (left behind by minimisation so that step numbers stay stable)
     Nop,
     // U-world: BDDSet clients
@@ -194,6 +207,7 @@ impl Op {
             Op::ForeignFind(_) => "foreign-find".into(),
             Op::Redo(_) => "redo".into(),
             Op::Bulk(..) => "table-growth".into(),
+            Op::Spin(..) => "call-count".into(),
             Op::Nop => "nop".into(),
             Op::SetNew => "set.with_env".into(),
             Op::SetFromElement(_) => "set.from_element".into(),
@@ -269,7 +283,8 @@ pub struct Step {
     pub sym_fault: Option<u32>,
     /// `cross-env` (C02 only): bit i set = operand i is replaced by a structurally identical twin
     /// that lives in a second environment (bit 7 clear) or in no environment at all (bit 7 set).
-    /// 0x20 on a `set.contains` step: `borrow-held` (the client holds a shared borrow of the set's
+    /// 0x10 (C13 / C02): `address-alias` (the first nodes the operation allocates are placed at
+    /// addresses that agree in their low 32 bits). 0x20 on a `set.contains` step: `borrow-held` (the client holds a shared borrow of the set's
     /// public cell across the query). Bit 6 alone (0x40, C13): `clone-object` — the operation runs in a `Clone` of the shared
     /// environment taken at that moment (and dropped afterwards) instead of the environment itself
     #[serde(default)]
@@ -310,6 +325,8 @@ fn default_true() -> bool {
 pub struct Tier {
     pub max_steps: usize,
     pub max_clients: u8,
+    /// the thorough tier affords runs with 2^32 cheap calls
+    pub wrap32: bool,
 }
 
 fn gen_script(rng: &mut Prng, faults: &FaultCfg) -> Script {
@@ -379,7 +396,8 @@ pub fn gen_plan(rng: &mut Prng, property: &str, tier: &Tier) -> EnvPlan {
         0..=2 => rng.range(5, 8),
         // wide universes (C19 only): membership is then checked on the elements the plan mentions
         // and on boundary values, against a finite / co-finite reference set
-        3 | 4 if property == "C19" => *rng.pick(&[16usize, 31, 32, 33, 63, 64]),
+        // (above 64 bits: a caller-defined element type, executed by sims/widesets.rs)
+        3 | 4 if property == "C19" => *rng.pick(&[16usize, 31, 32, 33, 63, 64, 16, 32, 63, 64, 65, 72, 96]),
         _ => rng.range(1, 4),
     };
     let clients = rng.range(1, tier.max_clients as usize) as u8;
@@ -637,6 +655,14 @@ pub fn gen_plan(rng: &mut Prng, property: &str, tier: &Tier) -> EnvPlan {
                     8 => Op::Exists(vars(rng), a),
                     9 => Op::All(vars(rng), a),
                     10 => Op::ExistsImpl(rng.below(nvars + 2), a),
+                    11 if property == "C02" && rng.chance(1, 1500) => {
+                        // `long-list`: more operands than any fast path would bother with below
+                        // (2^len recursion steps in the unchanged library: rare, with its own budget)
+                        let len = rng.range(21, 22);
+                        let l: Vec<usize> = (0..len).map(|_| rng.below(1 << 16)).collect();
+                        let n = *rng.pick(&[-1i64, 0, len as i64 / 2, len as i64 - 1, len as i64, len as i64 + 1, len as i64 + 1, len as i64 + 2, len as i64 + 9]);
+                        Op::CountN(*rng.pick(&[CountKind::Aln, CountKind::Amn, CountKind::Exn]), l, n)
+                    }
                     11 => {
                         let l = list(rng, 5);
                         let n = rng.range_i64(-2, l.len() as i64 + 2);
@@ -673,6 +699,9 @@ pub fn gen_plan(rng: &mut Prng, property: &str, tier: &Tier) -> EnvPlan {
             (rng.range(1, 7) as u8) | if rng.coin() { 0x80 } else { 0 }
         } else if property == "C13" && op.is_raw() && !matches!(op, Op::Fp(..)) && rng.chance(1, 40) {
             0x40
+        } else if (property == "C13" || property == "C02") && op.is_raw() && rng.chance(1, 25) {
+            // `address-alias`: the first nodes this operation allocates lie 4 GiB apart
+            0x10
         } else if matches!(op, Op::SetContains(..)) && rng.chance(1, 6) {
             // `borrow-held`: the client holds a shared borrow of the set's public cell across the query
             0x20
@@ -761,6 +790,53 @@ pub fn gen_plan(rng: &mut Prng, property: &str, tier: &Tier) -> EnvPlan {
                 op: again,
             });
         }
+    }
+
+    // `call-count` probe (C13): a quantification of a live diagram, then so many cheap
+    // quantifier calls that a 16-bit (thorough tier, rarely: 32-bit) call counter of the
+    // environment comes round, then the quantification of the SAME diagram over ANOTHER variable
+    // as exactly the 2^16-th (2^32-th) quantifier call after the first one (a window of repeated
+    // calls would overwrite whatever the first one left behind)
+    if property == "C13" && !big && nvars >= 2 && world == WorldKind::U && rng.chance(1, 1500) {
+        let width: u64 = if tier.wrap32 && rng.chance(1, 300) { 1 << 32 } else { 1 << 16 };
+        let mk = |op: Op| Step {
+            sym_fault: None,
+            foreign: 0,
+            client: 0,
+            keep: true,
+            op,
+        };
+        let (h, v1, v2) = if nvars >= 3 && rng.chance(2, 3) {
+            // a diagram that tests variable 0 at its root and whose quantifications over
+            // variables 1 and 2 differ: (x0 & x1) | (-x0 & x2)
+            let t = steps.len();
+            steps.push(mk(Op::Var(0)));
+            steps.push(mk(Op::Var(1)));
+            steps.push(mk(Op::Var(2)));
+            steps.push(mk(Op::Bin(BinKind::And, t + 2, t + 3)));
+            steps.push(mk(Op::Un(UnKind::Not, t + 2)));
+            steps.push(mk(Op::Bin(BinKind::And, t + 6, t + 4)));
+            steps.push(mk(Op::Bin(BinKind::Or, t + 5, t + 7)));
+            (t + 8, 1, 2)
+        } else {
+            (steps.len().saturating_sub(1 + rng.below(4)), rng.below(nvars), rng.below(nvars))
+        };
+        let kind = rng.below(3) as u8;
+        let q = |v: usize| match kind {
+            0 => Op::ExistsImpl(v, h),
+            1 => Op::All(vec![v], h),
+            _ => Op::Exists(vec![v], h),
+        };
+        let mk = |op: Op| Step {
+            sym_fault: None,
+            foreign: 0,
+            client: 0,
+            keep: false,
+            op,
+        };
+        steps.push(mk(q(v1)));
+        steps.push(mk(Op::Spin(if kind == 1 { 1 } else { 0 }, width - 1)));
+        steps.push(mk(q(v2)));
     }
 
     let ids: Vec<usize> = if !ids_dense && !set_heavy {
@@ -1760,7 +1836,7 @@ impl<'p, W: World> Exec<'p, W> {
         let nvars = self.n;
         let symf = move |i: usize| W::sym(&names, i);
         rsbdd::verif_hooks::reset();
-        rsbdd::verif_hooks::set_budget(Some(STEP_TICK_BUDGET));
+        rsbdd::verif_hooks::set_budget(Some(step_budget(op)));
         let in_clone = step.foreign == 0x40 && self.prop() == "C13";
         let env = if in_clone {
             match catch(|| Rc::new((*self.env).clone())) {
@@ -1776,7 +1852,14 @@ impl<'p, W: World> Exec<'p, W> {
             Rc::clone(&self.env)
         };
         SYM_FAULT.with(|c| c.set(step.sym_fault));
+        if step.foreign == 0x10 {
+            crate::alloc::request_alias(crate::alloc::rc_block_size::<BDD<W::S>>(), (step_no % 3) as u32, 2 + (step_no % 2) as u32);
+        }
         let shared = catch(|| apply(&env, &symf, nvars, op, &args));
+        if step.foreign == 0x10 && crate::alloc::cancel_alias_placed() >= 2 {
+            bump(&mut self.stats, "fault.address-alias");
+            self.faults_fired += 1;
+        }
         let sym_cancelled = step.sym_fault.is_some() && SYM_FAULT.with(|c| c.get()).is_none() && matches!(shared, Caught::Cancel);
         SYM_FAULT.with(|c| c.set(None));
         rsbdd::verif_hooks::set_budget(None);
@@ -1815,7 +1898,7 @@ impl<'p, W: World> Exec<'p, W> {
         let fresh_env = BDDEnv::<W::S>::new();
         if want_fresh {
             let fargs: Vec<Rc<BDD<W::S>>> = args.iter().map(|a| recreate(&fresh_env, a)).collect();
-            rsbdd::verif_hooks::set_budget(Some(STEP_TICK_BUDGET));
+            rsbdd::verif_hooks::set_budget(Some(step_budget(op)));
             let r = catch(|| apply(&fresh_env, &symf, nvars, op, &fargs));
             rsbdd::verif_hooks::set_budget(None);
             if matches!(r, Caught::Budget) {
@@ -1834,7 +1917,6 @@ impl<'p, W: World> Exec<'p, W> {
                         Op::Size => false,
                         // two allocations of one structure are legitimate once an outside operand was captured
                         Op::Duplicates(_) | Op::NodeList(_) if self.outside_used => false,
-                        Op::Duplicates(_) => !matches!((a, b), (Res::Num(x), Res::Num(y)) if x != y && u32_collision(&args[0])),
                         _ => true,
                     };
                     if judged {
@@ -2048,6 +2130,34 @@ impl<'p, W: World> Exec<'p, W> {
                 }
                 Ok(true)
             }
+            Op::Spin(kind, count) => {
+                let names = self.names.clone();
+                let env = Rc::clone(&self.env);
+                let (kind, count) = (*kind, *count);
+                let v0 = W::sym(&names, 0);
+                let r = catch(|| {
+                    let t = env.mk_const(true);
+                    let f = env.mk_const(false);
+                    for _ in 0..count {
+                        match kind {
+                            0 => drop(env.exists_impl(&v0, Rc::clone(&t))),
+                            1 => drop(env.all(vec![v0.clone()], Rc::clone(&t))),
+                            2 => drop(env.not(Rc::clone(&t))),
+                            3 => drop(env.and(Rc::clone(&t), Rc::clone(&t))),
+                            4 => drop(env.or(Rc::clone(&f), Rc::clone(&f))),
+                            _ => drop(env.var(v0.clone())),
+                        }
+                    }
+                });
+                if let Caught::Panic(m, l) = r {
+                    if self.prop() == "C13" {
+                        return Err(viol("C13", "I2", &format!("call-count@{l}"), step_no, format!("{count} consecutive cheap calls (kind {kind}) panicked: {m} @ {l}")));
+                    }
+                }
+                bump(&mut self.stats, if count > 1 << 20 { "fault.call-count-2^32" } else { "fault.call-count-2^16" });
+                self.faults_fired += 1;
+                Ok(true)
+            }
             Op::Bulk(seed, count) => {
                 let mut st = *seed;
                 let names = self.names.clone();
@@ -2103,7 +2213,6 @@ impl<'p, W: World> Exec<'p, W> {
                                         res_equal(&res, &e.res)
                                     }
                                 }
-                                (Res::Num(x), Res::Num(y)) if matches!(e.op, Op::Duplicates(_)) && x != y && u32_collision(&e.args[0]) => Ok(()),
                                 _ => res_equal(&res, &e.res),
                             };
                             if let Err(why) = same {
@@ -2240,20 +2349,6 @@ fn has_negative_literal<S: BDDSymbol>(d: &BDD<S>) -> bool {
         BDD::Choice(t, _, f) => t.is_false() || has_negative_literal(t) || has_negative_literal(f),
         _ => false,
     }
-}
-
-/// true iff two distinct nodes of the diagram have addresses equal modulo 2^32 (then
-/// `duplicates()` is address-dependent by construction and is not judged)
-fn u32_collision<S: BDDSymbol>(root: &Rc<BDD<S>>) -> bool {
-    let mut full: HashSet<usize> = HashSet::new();
-    let mut low: HashSet<u32> = HashSet::new();
-    for n in root.node_list() {
-        let p = Rc::as_ptr(&n) as usize;
-        if full.insert(p) && !low.insert(p as u32) {
-            return true;
-        }
-    }
-    false
 }
 
 // ---- U-world: BDDSet clients ------------------------------------------------------------------
@@ -2737,6 +2832,9 @@ pub fn plan_valid(plan: &EnvPlan) -> bool {
 
 pub fn execute(plan: &EnvPlan) -> RunOutcome {
     rsbdd::verif_hooks::reset();
+    if plan.world == WorldKind::U && plan.set_bits > 64 {
+        return super::widesets::execute(plan);
+    }
     match plan.world {
         WorldKind::U => Exec::<UWorld>::new(plan).run(),
         WorldKind::N => Exec::<NWorld>::new(plan).run(),
@@ -2749,11 +2847,13 @@ pub fn tier(thorough: bool) -> Tier {
         Tier {
             max_steps: 60,
             max_clients: 4,
+            wrap32: true,
         }
     } else {
         Tier {
             max_steps: 40,
             max_clients: 3,
+            wrap32: false,
         }
     }
 }
@@ -2767,7 +2867,10 @@ pub fn minimise(plan: &EnvPlan, v: &Violation) -> (EnvPlan, Violation) {
     // wall-clock safety net for very long plans (marathon runs): once it expires no further
     // candidate is tried; what has been reduced so far is still a failing plan. The verdict
     // never depends on it, only how small the replay file gets.
-    let started = std::time::Instant::now();
+    // The limit covers all minimisations of one check together: a tree that violates in ten classes
+    // with slow runs would otherwise spend forty minutes shrinking.
+    static FIRST: std::sync::OnceLock<std::time::Instant> = std::sync::OnceLock::new();
+    let started = *FIRST.get_or_init(std::time::Instant::now);
     let same = |p: &EnvPlan| -> Option<Violation> {
         if !plan_valid(p) || started.elapsed().as_secs() > 240 {
             return None;
